@@ -94,12 +94,7 @@ func Harness_C14_leak_through_transport() {
 	w := dataflow.VerifBuildShareProgram([]int{t}, []int{variant}, leak, leakAt, 0, accessAt)
 	if e, ok := c14Analyze(w); ok {
 		// transport 22 reads a cell that is written by a deferred call: same root cause as the recorded finding
-		// transport 18 appends to a nil slice: recorded finding KF-C14-append-to-nil-slice
-		if t == 18 {
-			c14CheckRacy(e, w, "KF-C14-append-to-nil-slice", true)
-		} else {
-			c14CheckRacy(e, w, "KF-C14-deferred-call-ignored", t == 22)
-		}
+		c14CheckRacy(e, w, "KF-C14-deferred-call-ignored", t == 22)
 	}
 }
 
